@@ -14,6 +14,9 @@ of `arrive e | poke | connect e | disconnect e` (induction over the history, `Pr
 callback fired at it. "Since the previous firing" is expressed without a `lastFire` function: an
 arrival at `j ≤ k` with no firing at `j, …, k-1`.
 
+Part C is the macro constructor's treatment of a hand-made wiring (`Wiring.reconfigure`): every wiring, every
+list of children.
+
 Part B quantifies over every signal graph `g` (cycles allowed), every node behaviour `sem` (the
 reaction of a child to `run()` is an arbitrary function of a node-local store: term functions, `If`,
 accumulators, failing children, caching …), every initial store and every fuel.
@@ -185,17 +188,17 @@ example : (fresh [1, 0]).firedAt id [.arrive 0, .arrive 1] 0 = false ∧
 
 /-! ## flows -/
 
-/-- REFINEMENT: for every signal graph satisfying `WF` (mirror-image connection lists, distinct labels
-among the emitters wired to one all-of trigger), every node behaviour, every related pair of initial
-trigger memories and every fuel, the transcribed composite loop (starting loop, then `fuel`
-deliveries) and the plain queue interpreter (one FIFO seeded with start tokens, `|starters| + fuel`
-steps) have invoked the same children in the same order, hold the same store (outputs, call log,
-provenance …), collected the same errors and have the same pending entries. No termination needed. -/
-theorem C02_refines_queue {σ} (sem : Sem σ) (g : Graph) (wf : WF g) (st : σ)
+/-- REFINEMENT, from any related pair of trigger memories: for every signal graph satisfying `WF`
+(mirror-image connection lists, distinct labels among the emitters wired to one all-of trigger), every node
+behaviour, every related pair of initial trigger memories and every fuel, the transcribed loops (starting
+loop, then `fuel` deliveries) and the plain queue interpreter (one FIFO seeded with start tokens,
+`|starters| + fuel` steps) have invoked the same children in the same order, hold the same store (outputs,
+call log, provenance …), collected the same errors and have the same pending entries. No termination needed. -/
+theorem C02_refines_queue_from {σ} (sem : Sem σ) (g : Graph) (wf : WF g) (st : σ)
     (rec0 : Nat → List Label) (seen0 : Nat → List Sig)
     (h0 : ∀ r l, l ∈ rec0 r ↔ ∃ s, s ∈ seen0 r ∧ g.lab s = l)
     (h1 : ∀ r s, s ∈ seen0 r → s ∈ g.accConns r) (fuel : Nat) :
-    let m := compositeRun sem g fuel (S.init st rec0)
+    let m := compositeRunFrom sem g fuel (S.init st rec0)
     let q := Spec.queueInterp sem g (g.starters.length + fuel) (Spec.init g st seen0)
     m.fired = q.fired ∧ m.store = q.store ∧ m.errs = q.errs ∧
       q.fifo = m.queue.map (fun p => (some p.1, p.2)) := by
@@ -209,17 +212,28 @@ theorem C02_refines_queue {σ} (sem : Sem σ) (g : Graph) (wf : WF g) (st : σ)
   rw [hq, hm]
   exact ⟨this.fired, this.store, this.errs, by simpa [lift] using this.fifo⟩
 
+/-- REFINEMENT for `Composite._on_run` as it is: WHATEVER the all-of triggers held before the run
+(`rec0` arbitrary — left-overs of an interrupted run, arrivals from outside), a fresh run is the plain queue
+interpreter started with empty memories -/
+theorem C02_refines_queue {σ} (sem : Sem σ) (g : Graph) (wf : WF g) (st : σ)
+    (rec0 : Nat → List Label) (fuel : Nat) :
+    let m := compositeRun sem g fuel (S.init st rec0)
+    let q := Spec.queueInterp sem g (g.starters.length + fuel) (Spec.init g st (fun _ => []))
+    m.fired = q.fired ∧ m.store = q.store ∧ m.errs = q.errs ∧
+      q.fifo = m.queue.map (fun p => (some p.1, p.2)) :=
+  C02_refines_queue_from sem g wf st (fun _ => []) (fun _ => []) (by simp) (by simp) fuel
+
 /-- the same for a first run (all trigger memories empty) of concrete children: same execution
 order (`provenance_by_execution`), same calls of the wrapped functions with the same arguments, same
 output values -/
-theorem C02_refines_queue_values (nodes : Nat → Node) (g : Graph) (wf : WF g) (st : Store) (fuel : Nat) :
-    let m := compositeRun (nodeSem nodes) g fuel (S.init st (fun _ => []))
+theorem C02_refines_queue_values (nodes : Nat → Node) (g : Graph) (wf : WF g) (st : Store)
+    (rec0 : Nat → List Label) (fuel : Nat) :
+    let m := compositeRun (nodeSem nodes) g fuel (S.init st rec0)
     let q := Spec.queueInterp (nodeSem nodes) g (g.starters.length + fuel) (Spec.init g st (fun _ => []))
     m.store.execLog = q.store.execLog ∧ m.store.callLog = q.store.callLog ∧
       (∀ i, m.store.out i = q.store.out i) ∧ (m.queue = [] ↔ q.fifo = []) := by
   intro m q
-  obtain ⟨_, hs, _, hf⟩ := C02_refines_queue (nodeSem nodes) g wf st (fun _ => []) (fun _ => [])
-    (by simp) (by simp) fuel
+  obtain ⟨_, hs, _, hf⟩ := C02_refines_queue (nodeSem nodes) g wf st rec0 fuel
   have hs' : m.store = q.store := hs
   have hf' : q.fifo = m.queue.map (fun p => (some p.1, p.2)) := hf
   refine ⟨by rw [hs'], by rw [hs'], fun i => by rw [hs'], ?_⟩
@@ -270,8 +284,15 @@ example :
       (Spec.init loopGraph.toGraph Store.init (fun _ => []))).store.execLog
       = [0, 3, 1, 2, 0, 3, 1, 2, 0, 3, 1, 2] := by decide +kernel
 
-/-- a diamond `0 >> 1`, `0 >> 2`, `3 << (1, 2)` in which `1` and `2` carry the same scoped label: the
-transcribed loop runs `3` twice (early, and again), the plain interpreter once — `WF.inj` is needed -/
+/-- HYPOTHESIS `WF.inj` CANNOT BE DROPPED from `C02_refines_queue`: a diamond `0 >> 1`, `0 >> 2`,
+`3 << (1, 2)` in which the emitters `1.ran` and `2.ran` carry the same scoped label — the transcribed loop
+runs `3` twice (early, and again), the plain interpreter once.
+Status on the real code: children of ONE parent always have distinct labels (C13), so this graph cannot be
+built from siblings and every flow the harness builds satisfies `FinGraph.check` (re-checked on the live
+channel objects of every case). Equal scoped labels do occur (a) for parentless nodes (default label = class
+name; `C02_all_early_witness`, corpus case 1, finding KF-C02-1) and (b) inside a RUNNING workflow when a
+signal connection crosses scopes (`c << (wf.a, wf.m.a)`: corpus case `xscope`, confirmed: `c` runs after
+`wf.a` alone); (b) involves two composites, i.e. two queues, and is outside this single-composite model. -/
 def clashGraph : FinGraph :=
   { conns := [[⟨2, false⟩, ⟨1, false⟩], [], [], [],   [⟨3, true⟩], [], [], [],   [⟨3, true⟩], [], [], [],
               [], [], [], []],
@@ -287,6 +308,13 @@ theorem C02_flow_early_witness :
     (Spec.queueInterp (nodeSem termNodes) clashGraph.toGraph 100
       (Spec.init clashGraph.toGraph Store.init (fun _ => []))).fired = [0, 2, 1, 3] ∧
     clashGraph.check = false := by decide +kernel
+
+/-- stale trigger memory does not leak into a fresh run: the left-over `[7]` at child 3 (it would complete
+the round of `clashGraph` at once) is dropped before the starting nodes run -/
+example :
+    (compositeRun (nodeSem termNodes) clashGraph.toGraph 0 (S.init Store.init (fun r => if r = 3 then [7] else []))).received 3 = [] ∧
+    (compositeRunFrom (nodeSem termNodes) clashGraph.toGraph 0 (S.init Store.init (fun r => if r = 3 then [7] else []))).received 3 = [7] := by
+  decide +kernel
 
 /-! ## hand-wired macros (`Macro._configure_graph_execution`) -/
 
@@ -362,6 +390,7 @@ end PwVerif.C02
 #print axioms PwVerif.C02.C02_all_early_witness_twice
 #print axioms PwVerif.C02.C02_all_never_early_repaired
 #print axioms PwVerif.C02.C02_all_round_repaired
+#print axioms PwVerif.C02.C02_refines_queue_from
 #print axioms PwVerif.C02.C02_refines_queue
 #print axioms PwVerif.C02.C02_refines_queue_values
 #print axioms PwVerif.C02.C02_value
